@@ -47,6 +47,7 @@ import (
 // ---------- one direction of a stream ----------
 
 type c16Half struct {
+	eofWithData bool // Read returns the last bytes together with io.EOF
 	mu         sync.Mutex
 	cond       *sync.Cond
 	buf        []byte
@@ -85,6 +86,9 @@ func (h *c16Half) Read(b []byte) (int, error) {
 			h.buf = h.buf[n:]
 			h.nread.Add(int64(n))
 			h.cond.Broadcast()
+			if h.eofWithData && h.wclosed && len(h.buf) == 0 {
+				return n, io.EOF // the last bytes and the end of the stream in one Read (QUIC streams do this)
+			}
 			return n, nil
 		case h.wclosed:
 			return 0, io.EOF
@@ -124,6 +128,17 @@ func (h *c16Half) Write(b []byte) (int, error) {
 		h.cond.Wait()
 	}
 	return len(b), nil
+}
+
+// writeAndClose appends b and closes the write side in one step (never blocks, also on a rendezvous half); the
+// reader then gets the last bytes together with io.EOF.
+func (h *c16Half) writeAndClose(b []byte) {
+	h.mu.Lock()
+	h.eofWithData = true
+	h.buf = append(h.buf, b...)
+	h.wclosed = true
+	h.cond.Broadcast()
+	h.mu.Unlock()
 }
 
 func (h *c16Half) closeWrite() {
